@@ -132,6 +132,19 @@ class Session(object):
                 rl.extend([tuple(it) if isinstance(it, list) else it for it in op["v"]])
                 cur.extend(op["v"])
             return ev
+        if k == "l_setobj":
+            # l[i] = <new object> on a list of objects
+            path = op["path"]
+            fd = R.decl_at(self.prog, st, path)
+            parent = self.live_at(inst, path[:-1])
+            with vsc.raw_mode():
+                l = getattr(parent, path[-1])
+            cur = R.get_at(st, path)
+            if op["i"] < len(cur):
+                with quiet():
+                    l[op["i"]] = self.bt.new(fd["c"])
+                cur[op["i"]] = R.new_state(self.prog, fd["c"], bool(fd["r"]))
+            return ev
         if k in ("l_append", "l_clear", "l_assign", "l_extend"):
             path = op["path"]
             fd = R.decl_at(self.prog, st, path)
